@@ -154,6 +154,21 @@ pub fn menu(quick: bool) -> Vec<(String, LmSpec)> {
             out.push((format!("small-objective-proportional-covering-need{cap}"), LmSpec { vars: bools(7), rows: vec![row(&wts, Rel::Ge, cap, "need")], obj: vals.to_vec(), offset: 0.0, sense: Sense::Min }));
         }
     }
+    // fixed charge through a big-M row: y may only be positive when the Boolean b pays for it
+    for (mname, big) in [("1e6", 1e6), ("1e9", 1e9)] {
+        for gain in [1.0, 3.0] {
+            out.push((
+                format!("fixed-charge-bigM{mname}-gain{gain}"),
+                LmSpec {
+                    vars: vec![("b".into(), Dom::Bool), ("y".into(), Dom::NonNegB(0.0, 5.0))],
+                    rows: vec![row(&[-big, 1.0], Rel::Le, 0.0, "link")],
+                    obj: vec![-1.0, gain],
+                    offset: 0.0,
+                    sense: Sense::Max,
+                },
+            ));
+        }
+    }
     // unbounded through a continuous variable
     out.push((
         "unbounded-mixed".into(),
@@ -307,7 +322,7 @@ fn check_model(name: &str, spec: &LmSpec, l: &mut Local) {
         let ok = match (&r, &base) {
             (Ok(Ok(a)), Ok(b)) => {
                 let g = gap.unwrap_or(0.0);
-                (a.value() - b.value()).abs() <= g * a.value().abs().max(1e-10) + 1e-6 * b.value().abs().max(1.0)
+                (a.value() - b.value()).abs() <= g * a.value().abs().max(b.value().abs()).max(1e-10) + 1e-6 * b.value().abs().max(1.0)
             }
             (Ok(Err(a)), Err(b)) => classify_err(a) == classify_err(b),
             _ => false,
@@ -391,7 +406,7 @@ fn check_model(name: &str, spec: &LmSpec, l: &mut Local) {
                     match status {
                         SolutionStatus::Optimal => {
                             let g = gap.unwrap_or(0.0);
-                            let allowed = g * sol.value.abs().max(1e-10) + 1e-6 * z.abs().max(1.0);
+                            let allowed = g * sol.value.abs().max(z.abs()).max(1e-10) + 1e-6 * z.abs().max(1.0);
                             if (sol.value - z).abs() > allowed {
                                 l.violation("limit:suboptimal-labelled-optimal", format!("time_limit={k}ns gap={gname}: value {} labelled Optimal, true optimum {z}", sol.value), case(&desc));
                             }
@@ -410,9 +425,9 @@ pub fn run(mut run: Run) -> ! {
     run.isolate = true;
     run.case_timeout_s = 60.0;
     let m = menu(run.quick());
-    run.rule = "for every MILP/LP model of the menu (knapsack, covering, near-tie knapsacks and coverings at objective scale 1e4 and 1e6 where many selections lie within 1e-4 of the optimum, knapsacks and coverings whose objective values are a few hundredths, mixed-integer, general-integer, infeasible, unbounded, pure LP, 60 (thorough: 600) mixed-integer models compiled from the C02 objective family; plus every knapsack (max, <=) and covering (min, >=) problem over weight/value menus of 3 values: all 2 x 729 three-item ones in the quick tier, all 2 x 6561 four-item ones in the thorough tier) the number N of clock reads of the uninterrupted search is measured under the virtual clock, then the search is run for EVERY expiry point k = 0..N+1 (time_limit = k ns) x 12 mip_gap values x 2 entry points (solve_milp_lp_problem_with; the builder solver object Microlp::new().with_mip_gap().with_time_limit() in both call orders), plus the builder object with a gap and no time limit; evaluations = models, coverage.expiry_points = executions; non-trivial = model with a finite optimum".into();
+    run.rule = "for every MILP/LP model of the menu (knapsack, covering, near-tie knapsacks and coverings at objective scale 1e4 and 1e6 where many selections lie within 1e-4 of the optimum, knapsacks and coverings whose objective values are a few hundredths, fixed-charge models with big-M 1e6 and 1e9, mixed-integer, general-integer, infeasible, unbounded, pure LP, 60 (thorough: 600) mixed-integer models compiled from the C02 objective family; plus every knapsack (max, <=) and covering (min, >=) problem over weight/value menus of 3 values: all 2 x 729 three-item ones in the quick tier, all 2 x 6561 four-item ones in the thorough tier) the number N of clock reads of the uninterrupted search is measured under the virtual clock, then the search is run for EVERY expiry point k = 0..N+1 (time_limit = k ns) x 12 mip_gap values x 2 entry points (solve_milp_lp_problem_with; the builder solver object Microlp::new().with_mip_gap().with_time_limit() in both call orders), plus the builder object with a gap and no time limit; evaluations = models, coverage.expiry_points = executions; non-trivial = model with a finite optimum".into();
     run.assume("virtual clock replaces crate web-time (the only clock microlp reads): each read advances time by 1 ns, so real executions are a subset of the enumerated expiry points (a real deadline also fires at some clock read and stays fired)");
-    run.assume("exact MILP optimum by integer box enumeration + exact LP; feasibility certificate at 1e-6; Optimal label must be within gap*max(|value|,1e-10) (+1e-6 relative) of the optimum");
+    run.assume("exact MILP optimum by integer box enumeration + exact LP; feasibility certificate at 1e-6; Optimal label must be within gap*max(|value|,|optimum|,1e-10) (+1e-6 relative) of the optimum (a relative gap is read against whichever of the two is larger, so that a returned value of 0 is not held to a zero tolerance)");
     let m2 = m.clone();
     run.family("milp-menu", m.len() as u64, move |i, l| {
         let (name, spec) = &m2[i as usize];
